@@ -179,8 +179,17 @@ func (a *app) EndBlock(req abci.RequestEndBlock) abci.ResponseEndBlock {
 		res.ValidatorUpdates = []abci.ValidatorUpdate{{PubKey: pk, Power: 10 + a.h%5}}
 	}
 	if a.cur.pu == 1 {
-		res.ConsensusParamUpdates = &abci.ConsensusParams{
-			Block: &abci.BlockParams{MaxBytes: 1048576 + a.h, MaxGas: -1},
+		if a.h%2 == 0 {
+			res.ConsensusParamUpdates = &abci.ConsensusParams{
+				Block: &abci.BlockParams{MaxBytes: 1048576 + a.h, MaxGas: -1},
+			}
+		} else {
+			// an update that leaves the Block params (all that HashConsensusParams covers) alone
+			res.ConsensusParamUpdates = &abci.ConsensusParams{
+				Evidence:  &tmproto.EvidenceParams{MaxAgeNumBlocks: 100000 + a.h, MaxAgeDuration: 48 * time.Hour, MaxBytes: 1000 + a.h%50},
+				Validator: &tmproto.ValidatorParams{PubKeyTypes: append([]string{types.ABCIPubKeyTypeEd25519}, []string{types.ABCIPubKeyTypeSecp256k1}[:a.h%3%2]...)},
+				Version:   &tmproto.VersionParams{AppVersion: uint64(a.h)},
+			}
 		}
 	}
 	return res
@@ -203,6 +212,9 @@ type node struct {
 	privs map[string]types.PrivValidator
 	pubs  []crypto.PubKey
 	used  map[int]bool
+	// params in force per height as the chain's applied blocks determined them (harness-side ground
+	// truth, not read from the stores)
+	inforce *sync.Map
 }
 
 func (n *node) open(bmem, smem *dbm.MemDB) {
@@ -222,7 +234,7 @@ func (n *node) open(bmem, smem *dbm.MemDB) {
 }
 
 func newNode(ih int64, nv int) *node {
-	n := &node{j: &journal{}, privs: map[string]types.PrivValidator{}, used: map[int]bool{}}
+	n := &node{j: &journal{}, privs: map[string]types.PrivValidator{}, used: map[int]bool{}, inforce: &sync.Map{}}
 	var gvs []types.GenesisValidator
 	for i := 0; i < nv; i++ {
 		pk := ed25519.GenPrivKeyFromSecret([]byte(fmt.Sprintf("c18-val-%d", i)))
@@ -243,6 +255,7 @@ func newNode(ih int64, nv int) *node {
 	if err := n.ss.Save(n.state); err != nil {
 		panic(err)
 	}
+	n.inforce.Store(ih, n.state.ConsensusParams)
 	return n
 }
 
@@ -405,6 +418,7 @@ func (n *node) step(in stepIn) (o stepOut) {
 		return o
 	}
 	n.state = st
+	n.inforce.Store(st.LastBlockHeight+1, st.ConsensusParams)
 	o.applied = "ok"
 	if retain > 0 {
 		o.blocks, o.states = n.pruneGlue(retain)
@@ -416,7 +430,7 @@ func (n *node) step(in stepIn) (o stepOut) {
 
 // audit opens fresh stores over the two databases and checks everything the property demands
 // of every height in [base,height]; returns "ok" or "<height>:<fault>".
-func audit(bmem, smem *dbm.MemDB) (verdict string) {
+func audit(bmem, smem *dbm.MemDB, inforce *sync.Map) (verdict string) {
 	var h int64
 	defer func() {
 		if r := recover(); r != nil {
@@ -507,6 +521,11 @@ func audit(bmem, smem *dbm.MemDB) (verdict string) {
 		}
 		if !bytes.Equal(types.HashConsensusParams(params), meta.Header.ConsensusHash) {
 			return f("paramsMismatch")
+		}
+		if want, ok := inforce.Load(h); ok {
+			if w := want.(tmproto.ConsensusParams); !params.Equal(&w) {
+				return f("params-differ-from-in-force")
+			}
 		}
 	}
 	return "ok"
@@ -636,7 +655,7 @@ func (n *node) finish(sn *snap, m map[string]string, head string) string {
 		b, s := cloneMem(sn.b), cloneMem(sn.s)
 		var bad []string
 		for k := 0; ; k++ {
-			if v := audit(b, s); v != "ok" {
+			if v := audit(b, s, n.inforce); v != "ok" {
 				bad = append(bad, fmt.Sprintf("%d=%s", k, v))
 			}
 			if k == len(units) {
@@ -693,7 +712,7 @@ func (n *node) finish(sn *snap, m map[string]string, head string) string {
 	}
 	out := head + fmt.Sprintf(" units=%d crashed=%d ", nunits, crashed) + n.summary()
 	if a >= 1 {
-		out += " audit=" + audit(n.bmem, n.smem)
+		out += " audit=" + audit(n.bmem, n.smem, n.inforce)
 	}
 	return out + crashVerdicts
 }
@@ -788,7 +807,7 @@ func execOp(np **node, op string) string {
 				break
 			}
 		}
-		return fmt.Sprintf("ok=%d ", okAll) + n.summary() + " audit=" + audit(n.bmem, n.smem)
+		return fmt.Sprintf("ok=%d ", okAll) + n.summary() + " audit=" + audit(n.bmem, n.smem, n.inforce)
 	case "prune":
 		r, ok := intReq(m, "retain")
 		if !ok || !checkFinish(m) {
@@ -824,7 +843,7 @@ func execOp(np **node, op string) string {
 		if len(m) != 0 || len(strings.Fields(op)) != 1 {
 			return "bad-op"
 		}
-		return n.summary() + " audit=" + audit(n.bmem, n.smem)
+		return n.summary() + " audit=" + audit(n.bmem, n.smem, n.inforce)
 	}
 	return "bad-op"
 }
